@@ -277,10 +277,6 @@ class ModeDReader(MeterReaderBase[DataReadout]):
         """
         readouts_received: list[DataReadout] = []
 
-        if len(self._buffer) > 8191:
-            self._is_int_hunt_mode = True
-            self._buffer.trim_buffer_to_flag_or_end()
-
         self._buffer.extend(data_chunk)
 
         if self._is_int_hunt_mode:
@@ -289,6 +285,13 @@ class ModeDReader(MeterReaderBase[DataReadout]):
         while True:
             line = self._buffer.pop()
             if line is None:
+                # Release consumed bytes. Only an incomplete line is left in the buffer.
+                self._buffer.trim_buffer_to_current_position()
+                if len(self._buffer) + len(self._raw_data) > 8191:
+                    # Line or readout is too long. Discard it and hunt for next start character.
+                    self._raw_data.clear()
+                    self._is_int_hunt_mode = True
+                    self._buffer.clear()
                 return readouts_received
 
             if self.is_in_hunt_mode:
@@ -333,6 +336,11 @@ class _ReaderBuffer:
     def extend(self, data_chunk: bytes) -> None:
         """Add bytes to buffer."""
         self._buffer.extend(data_chunk)
+
+    def clear(self) -> None:
+        """Discard all bytes in buffer."""
+        self._buffer.clear()
+        self._buffer_pos = 0
 
     def trim_buffer_to_current_position(self) -> None:
         """Trim buffer to current position."""
